@@ -33,6 +33,9 @@ CLAIMED = {
  "C09": dict(text="Static analysis. Decides the shutdown protocol for every body of the interpreter crates (linear-resource analysis of ShutdownSignal carriers, signal provenance, execution-stack pairing), the unsafe inventory with its layout preconditions, and enumerates potential-panic sites reachable from VM::run, each discharged by a checked guard / audited argument or reported. Termination and std-internal panics outside the listed kinds are not decided.",
              note=TRUST+"Call graph over-approximates (class-hierarchy resolution of trait calls, fn-pointer registry). Audited discharges without a re-checked `requires` clause are arguments by reading.",
              tech="linear-resource (typestate) dataflow on MIR + call-graph reachability + potential-panic-site enumeration with guard discharge"),
+ "C10": dict(text="Static analysis (partial claim). Decided: every explicit panic / unwrap-family site and every Add/Sub/Mul overflow assert on u8/i8/i16/u16 operands in functions reachable from tfm_to_pl / pl_to_tfm is discharged (constant, dominating comparison, type, audited author invariant) or is a reproduced finding. NOT decided, reported as `undecided` with counts: slice bounds and range slicing (the 4-byte-word invariant needs a congruence argument), 32-bit/usize arithmetic, the PL parser's span arithmetic, and that PL->TFM output is accepted by the TFM reader.",
+             note=TRUST+"Most discharges in the tfm crate are the authors' stated invariants (expect messages), read and accepted — arguments by reading, listed in tables/pps_audited.json.",
+             tech="potential-panic-site enumeration over the call graph from the conversion entry points, with guard/type/const discharge and an audited table"),
  "C16": dict(text="Static analysis: the deserializer's table (op_code = 0..=255, exhaustive) and the serializer's table (every Op variant x Var x move_h x fast/slow path, plus the u32_var/i32_var offset tables) are extracted from MIR by finite-domain specialisation and compared cell by cell: variant, constants, operand widths, signedness and field order; opcodes 250-255 are rejected. Axis partition of w/x/y/z agrees across Values::update and VarRemover, which passes all other operations through. Reader totality is decided by enumerating and discharging every potential-panic site of deserialize and its callees. Not decided: value-level boundary arithmetic of the 3-byte signed form, 'consumes every byte', position preservation as a value statement.",
              note=TRUST+"DVI opcode semantics are taken from the reader/writer pair themselves (agreement), plus DVI's fnt_def/string layouts transcribed by hand.",
              tech="decision-table extraction (abstract interpretation of MIR over finite key domains) + table agreement + potential-panic-site discharge"),
